@@ -6,6 +6,17 @@ ALL = ["C%02d" % i for i in range(1, 21)]
 
 # id -> (technique, level text, level_note, design_ref)
 CLAIMS = {
+ "C06": ("Lean 4 proofs on the parameter-operator algorithms (abstract matcher, Int offsets) + in-process correspondence + bash oracle",
+         "Proof: Model/ParamOps.lean mirrors expansion.rs/patterns.rs (classify, the - = ? + table, ${#v}, substring bounds and slices, the four "
+         "remove_* loops) over an abstract matcher m and unbounded Int offsets; Spec/ParamOps.lean is bash's definition. 23 theorems for every "
+         "string, matcher, offset and length: remove_largest_prefix/suffix_is_longest (full); shortest-match partial (guard m [] = false) + cex "
+         "+ proved for the repaired loop; param_test_table_eq_posix (whole 4x2x3 table); test_ops_refine_bash_partial; substr/slice refine bash "
+         "(partial: non-negative length, byte length = char count; cex for the panic and the wrong result; full for the repaired bounds); "
+         "length theorems. Tie: every (value, operator, operand) triple runs through brush in-process, the Lean driver and bash (400 per bash "
+         "process); unmodelled operators (replacement, case modification, indirection, @-transforms) run brush-vs-bash only.",
+         "Trusted: Lean kernel + standard axioms; bash as oracle; the abstract matcher is instantiated with a small glob matcher mirroring the "
+         "regex semantics (validated by the same runs). Replacement/case-modification/indirection operators have no theorem (explored only).",
+         "DESIGN.md §6 C06"),
  "C07": ("Lean 4 proofs on an Int64 evaluator model + precedence table regenerated from the PEG grammar; five-way correspondence",
          "Proof: Model/Arith.lean mirrors brush-core arithmetic.rs (eval order, short circuit, assignment, recursive variable dereference with "
          "the 1024 limit, wrapping Int64 operators, wpow) with termination by well-founded recursion; Model/ArithParse.lean is the peg "
